@@ -151,10 +151,11 @@ func (h *NFSProcedureHandler) handleCreate(body io.Reader, reply *RPCReply, auth
 		if dirPostAttrs == nil {
 			dirPostAttrs = dirPreAttrs
 		}
-		handle := h.server.handler.fileMap.Allocate(existingNode)
+		// (copied before the node is published: see handleLookup)
 		existingNode.mu.RLock()
 		existingAttrsCopy := *existingNode.attrs
 		existingNode.mu.RUnlock()
+		handle := h.server.handler.fileMap.Allocate(existingNode)
 		var buf bytes.Buffer
 		xdrEncodeUint32(&buf, NFS_OK)
 		xdrEncodeUint32(&buf, 1)
@@ -220,12 +221,12 @@ func (h *NFSProcedureHandler) handleCreate(body io.Reader, reply *RPCReply, auth
 
 	dirPostAttrs := h.postOpAttrs(node, dirPreAttrs)
 
-	handle := h.server.handler.fileMap.Allocate(newNode)
-
-	// R4: Copy newNode attrs under RLock
+	// R4: Copy newNode attrs under RLock (before the node is published: see handleLookup)
 	newNode.mu.RLock()
 	newNodeAttrsCopy := *newNode.attrs
 	newNode.mu.RUnlock()
+
+	handle := h.server.handler.fileMap.Allocate(newNode)
 
 	var buf bytes.Buffer
 	xdrEncodeUint32(&buf, NFS_OK)
@@ -347,12 +348,12 @@ func (h *NFSProcedureHandler) handleMkdir(body io.Reader, reply *RPCReply, authC
 
 	dirPostAttrs := h.postOpAttrs(node, dirPreAttrs)
 
-	handle := h.server.handler.fileMap.Allocate(newNode)
-
-	// R4: Copy newNode attrs under RLock
+	// R4: Copy newNode attrs under RLock (before the node is published: see handleLookup)
 	newNode.mu.RLock()
 	newNodeAttrsCopy := *newNode.attrs
 	newNode.mu.RUnlock()
+
+	handle := h.server.handler.fileMap.Allocate(newNode)
 
 	var buf bytes.Buffer
 	xdrEncodeUint32(&buf, NFS_OK)
@@ -491,12 +492,12 @@ func (h *NFSProcedureHandler) handleSymlink(body io.Reader, reply *RPCReply, aut
 
 	dirPostAttrs := h.postOpAttrs(node, dirPreAttrs)
 
-	handle := h.server.handler.fileMap.Allocate(newNode)
-
-	// R4: Copy newNode attrs under RLock
+	// R4: Copy newNode attrs under RLock (before the node is published: see handleLookup)
 	newNode.mu.RLock()
 	newNodeAttrsCopy := *newNode.attrs
 	newNode.mu.RUnlock()
+
+	handle := h.server.handler.fileMap.Allocate(newNode)
 
 	var buf bytes.Buffer
 	xdrEncodeUint32(&buf, NFS_OK)
